@@ -41,7 +41,18 @@ KNOBS = {
 
 
 def gen(rs: int, tier: str, index: int) -> dict:
-    return gen_worker_script(rs, tier_knobs(KNOBS, tier, index))
+    s = gen_worker_script(rs, tier_knobs(KNOBS, tier, index))
+    if index % 10 == 7 and s["config"]["workers"] == 1:
+        # programmatic entry point: taskiq.api.run_receiver_task reconnects after broker.listen() fails
+        from sim.rng import stream
+        r = stream(rs, "c03api")
+        s["config"]["entry"] = "api"
+        s["config"]["listen_fail_after"] = r.randint(0, max(1, len(s["messages"])))
+        for m in s["messages"]:
+            if isinstance(m.get("task"), int) and s["tasks"][m["task"]].get("sync"):
+                m["task"] = 0
+                m.pop("pool_delay_us", None)
+    return s
 
 
 def oracle(script: dict, run: Any) -> List[Violation]:
@@ -55,8 +66,19 @@ def oracle(script: dict, run: Any) -> List[Violation]:
     probe_started = False
     order_take: Dict[str, List[Any]] = {}
     order_enter: Dict[str, List[Any]] = {}
+    lf = h.kind("listen_fail")
+    fail_seq = lf[0][0] if lf else None
     for e in h.events:
         kind, node, d = e[3], e[2], e[4]
+        if fail_seq is not None and e[0] >= fail_seq and kind in ("cb_enter", "fn_enter", "take"):
+            # after broker.listen() failed, run_receiver_task starts a new receiver while callbacks of the old one may still be
+            # running: transport failures are not in C03's quantifier, so the upper limit is not judged from here on; the lower
+            # bound (no slot was lost: the probe still reaches max_async_tasks) and progress are still checked below.
+            if kind == "cb_enter" and probe_started:
+                lv = live.setdefault(node, [])
+                lv.append(d)
+                peak_probe[node] = max(peak_probe.get(node, 0), len(lv))
+            continue
         if kind == "probe_start":
             probe_started = True
         elif kind == "take":
@@ -83,7 +105,7 @@ def oracle(script: dict, run: Any) -> List[Violation]:
                 break
         elif kind == "fn_exit":
             bodies.get(node, set()).discard(d)
-    if A == 1:
+    if A == 1 and fail_seq is None:
         for node, ent in order_enter.items():
             tk = [d for d in order_take.get(node, []) if d in set(ent)]
             if ent != tk:
@@ -92,6 +114,10 @@ def oracle(script: dict, run: Any) -> List[Violation]:
     if probe and not out:
         ps = [e for e in h.kind("probe_settled")]
         idle = bool(ps and ps[0][5]["idle"])
+        if fail_seq is not None:
+            # messages that sat in the failed receiver's hand-over queue are gone with it; progress is judged on the probe messages
+            pd = [t[4] for t in h.takes() if str(t[5]["k"]).startswith("p")]
+            idle = bool(pd) and len(pd) == probe["n"] and all(h.first(x, "cb_exit") is not None for x in pd)
         if not idle:
             out.append(Violation("C03/no-progress-after-history", "saturation probe: the worker did not finish all probe messages after faults stopped (bounded liveness)"))
         elif cfg["workers"] == 1:
@@ -109,7 +135,7 @@ def probes(script: dict, run: Any) -> Dict[str, int]:
     res = {"probe_ran": int(bool(h.kind("probe_start"))), "hook_raised": int(run.fault_counts.get("hook_raise", 0) > 0),
            "callback_raised": int(any(e[5].get("how") != "ok" for e in h.kind("cb_exit"))),
            "timeout_fired": int(any(e[5].get("how") == "cancelled" for e in h.kind("fn_exit"))),
-           "limit_reached": 0}
+           "limit_reached": 0, "api_entry_reconnected_after_listen_failure": int(bool(h.kind("listen_fail")))}
     A = script["config"].get("A")
     if A:
         live = 0
